@@ -4,12 +4,14 @@ one JSON answer per line on stdout (`{"case":k,"r":…}` or `{"case":k,"bad":msg
 -/
 import Driver.Util
 import Driver.OpsNLV
+import Driver.OpsOrder
 open Lean Driver
 
 def dispatch (op : String) (j : Json) : R Json :=
   match op with
   | "nlv" => opNLV j
   | "nlvEquals" => opNLVEquals j
+  | "order" => opOrder j
   | _ => .error s!"unknown op {op}"
 
 partial def loop (h : IO.FS.Stream) (out : IO.FS.Stream) : IO Unit := do
